@@ -108,6 +108,19 @@ def run(ctx):
                 ctx.ob('C15.R1', fi, stmt.lineno, f"flows['{k}'] term from `{side.replace('step.', '')}` is counted only for "
                                                   f"the queried object", bool(g), fact=str(g[0]) if g else 'no name test',
                        why='flows of other objects are attributed to the queried one', key=f"flow object test {k}")
+            # the two sides of a step are looked at independently: a term that reads the source record must not sit under
+            # a condition on the destination record (an `elif` chain drops the outflow of a step whose source and
+            # destination are the same object)
+            if sides == {'step.frm'}:
+                entry = st.loops[-1][2] if st.loops else {}
+                cross = [f for kf, f in st.facts.items() if kf not in entry and
+                         any((getattr(n, 'pkey', None) or '').startswith('step.to[') or
+                             (isinstance(n, Ref) and n.name.startswith('step.to[')) for n in deep_walk(f.test))]
+                ctx.ob('C15.R1', fi, stmt.lineno, f"flows['{k}'] term from `frm` does not depend on what the destination side matched",
+                       not cross, fact=(f"under a condition on the destination record: {show(cross[0].test, 60)}" if cross
+                                        else 'conditions on the source record only'),
+                       why='a step whose source and destination are the queried object (two regions of one plate) loses its outflow',
+                       key=f"source side conditional on destination side {k}")
             if k == 'in':
                 def no_trash(c):
                     return c.op == 'falsy' and getattr(strip_refs(c.left), 'pkey', None) == 'step.trash'
@@ -142,6 +155,8 @@ def run(ctx):
                not bad, fact=f"{len(bad)} rounding(s) of {sorted(acc_roots)} inside the loop",
                why='flows smaller than the display precision vanish step by step: in - out no longer balances with the '
                    'amount remaining', key='running totals rounded per step')
+    precision_of_requested_unit(ctx, 'C15.R3', ('Recipe.get_container_flows', 'Recipe.get_amount_remaining',
+                                                  'Recipe.get_substance_used'))
     from .c09 import per_instance_state, record_completeness
     per_instance_state(ctx, 'C15.R4')
     record_completeness(ctx, 'C15.R4')
@@ -295,3 +310,40 @@ def t5(ctx):
                    fact=f"keywords {sorted(kws)}", why=why,
                    key=f"vectorize without otypes: {unparse(fn, 30)}" if numeric else f"vectorize without cache: {unparse(fn, 30)}")
     floor(ctx, 'numpy.vectorize call sites', n, 3)
+
+
+def precision_of_requested_unit(ctx, rule, qualnames):
+    """An answer in the requested unit is rounded with the display precision of THAT unit: every lookup
+    `config.precisions[K]` in the tracking queries has K = the `unit` the answer is expressed in (or 'default')."""
+    from ..flow import definitions_of
+    model = ctx.model
+    n = 0
+    for q in qualnames:
+        fi = model.func(q)
+        if 'unit' not in fi.param_names():
+            continue
+        ff = ctx.flow(q)
+        seen = set()
+        for sid, v in list(ff.resolved.items()):
+            if v is None:
+                continue
+            for x in deep_walk(v, follow_refs=False):
+                if not (isinstance(x, ast.Subscript) and getattr(x.value, 'pkey', None) == 'config.precisions'):
+                    continue
+                raw = getattr(x, 'orig', x)
+                if id(raw) in seen:
+                    continue
+                seen.add(id(raw))
+                k = x.slice
+                if const_value(k) == 'default':
+                    continue
+                n += 1
+                roots = definitions_of(k) if isinstance(k, (Ref, Phi)) else [k]
+                ok = any((isinstance(strip_refs(r), Param) and strip_refs(r).name == 'unit') or
+                         (isinstance(r, Ref) and r.name == 'unit') for r in roots) or \
+                    (isinstance(strip_refs(k), Param) and strip_refs(k).name == 'unit')
+                ctx.ob(rule, fi, getattr(x, 'lineno', fi.node.lineno), f"{fi.name}: the rounding precision is looked up for the requested unit",
+                       ok, fact=f"config.precisions[{show(k, 40)}]",
+                       why='the answer is rounded with the precision of another unit (e.g. 0 digits of uL for a value in mL)',
+                       key=f"precision of another unit in {fi.name}")
+    ctx.count('precision_lookups', n)
